@@ -12,16 +12,19 @@ open AsyncsshModel.Auth
 /-- which transition function is the faithful model of the source as it is now (flags regenerated from the AST
     of `_process_userauth_request` / `_finish_userauth` on every run) -/
 def codeStep (app : App) : St → Ev → St :=
-  if Gen.C05.abortsPrevious && Gen.C05.beginTestIsBegun && decide (2 ≤ Gen.C05.staleChecks) then step app
+  if Gen.C05.abortsPrevious && Gen.C05.beginTestIsBegun && decide (2 ≤ Gen.C05.staleChecks) &&
+      Gen.C05.cancelsSuperseded && Gen.C05.resetsBegunOnReload then step app
   else if Gen.C05.abortsPrevious then stepMid app
   else stepOld app
 
-/-- **The source implements the repaired discipline**: a new request aborts the one in progress, superseded
-    `_finish_userauth` tasks stop at both suspension points, and `begin_auth` is skipped only for the user it
-    completed for — so the theorems below, stated about `step`/`run`, are about the current code. -/
+/-- **The source implements the repaired discipline**: a new request aborts the one in progress and cancels the
+    task of the superseded request (so an application `begin_auth` still running for it cannot install that user's
+    keys later), superseded `_finish_userauth` tasks stop at both suspension points, `begin_auth` is skipped only for
+    the user it completed for, and that user is forgotten once the configuration is reloaded for another request — so the theorems below, stated about `step`/`run`, are about the current code. -/
 theorem code_is_repaired (app : App) : codeStep app = step app := by
   unfold codeStep
-  simp [Gen.C05.abortsPrevious, Gen.C05.beginTestIsBegun, Gen.C05.staleChecks]
+  simp [Gen.C05.abortsPrevious, Gen.C05.beginTestIsBegun, Gen.C05.staleChecks, Gen.C05.cancelsSuperseded,
+    Gen.C05.resetsBegunOnReload]
 
 /-- a credential check for `u` succeeded on this connection, or the application declared that `u` needs none -/
 def Granted (app : App) (log : List Call) (u : Nat) : Prop :=
@@ -145,9 +148,9 @@ theorem onReq_inv (app : App) (s : St) (r : Req) (h : Inv app s) : Inv app (onRe
       have hold : ∀ t ∈ s.tasks, t.seq ≠ s.seq + 1 := by
         intro t ht; have := h.seqs t ht; omega
       -- the state after switching the user name and aborting what was in progress
-      have h1 : ∀ log nb, Inv app { s with username := some r.user, seq := s.seq + 1, auth := none,
-                                            log := log, nBegin := nb } := by
-        intro log nb
+      have h1 : ∀ log nb bg, Inv app { s with username := some r.user, seq := s.seq + 1, auth := none,
+                                               log := log, nBegin := nb, begun := bg } := by
+        intro log nb bg
         refine ⟨?_, ?_, ?_, ?_, ?_, h.uniq, ?_⟩
         · intro a ha; cases ha
         · intro t ht hs; exact absurd hs (hold t ht)
@@ -162,7 +165,7 @@ theorem onReq_inv (app : App) (s : St) (r : Req) (h : Inv app s) : Inv app (onRe
       split
       · split
         · -- asynchronous begin_auth: the task is parked
-          have hb := h1 (s.log ++ [Call.begin r.user]) (s.nBegin + 1)
+          have hb := h1 (s.log ++ [Call.begin r.user]) (s.nBegin + 1) none
           refine ⟨hb.authUser, ?_, ?_, hb.authBegun, ?_, ?_, hb.done⟩
           · intro t ht hs
             simp only [List.mem_append, List.mem_singleton] at ht
@@ -182,10 +185,10 @@ theorem onReq_inv (app : App) (s : St) (r : Req) (h : Inv app s) : Inv app (onRe
             · exact absurd hs (hold t ht)
             · exact absurd hs.symm (hold t' ht')
             · rfl
-        · exact afterBegin_inv app _ r.user r (h1 _ _) rfl rfl hold
+        · exact afterBegin_inv app _ r.user r (h1 _ _ _) rfl rfl hold
       · rename_i hbeg
         have hbeg' : s.begun = some r.user := by simpa using hbeg
-        exact createAuth_inv app _ r (h1 s.log s.nBegin) hbeg' hold
+        exact createAuth_inv app _ r (h1 s.log s.nBegin s.begun) hbeg' hold
 
 theorem onBeginDone_inv (app : App) (s : St) (k : Nat) (h : Inv app s) : Inv app (onBeginDone app s k) := by
   unfold onBeginDone
